@@ -9,26 +9,49 @@ from ..core import Case
 
 ID = 'C02'
 MANIFEST = {
-    'text': ('Coq theorems (Properties/C02.v) about an executable model M of static_frame/core/index.py: '
-             'C02_index_refines (Index(labels) observed through values/iter/reversed/len/positions/iloc/loc_to_iloc/in equals the '
-             'specification "the index is the label list", rejection of non-unique labels included, for every label list and probe list), '
-             'C02_index_accepts_iff, C02_index_bijection (lookup of the i-th label is i and conversely, membership exact). '
-             'API-level correspondence of M and S with the implementation on generated label lists.'),
-    'note': ('trusted: Coq kernel, hand-written model coq/SF/IndexBij.v (tied to /repo by the correspondence cases of each run), '
-             'AutoMap/FrozenAutoMap modelled as an insertion-ordered map that raises on a duplicate (oracle, swept against the real class), '
-             'label canonicalisation (True == 1 == 1.0) done inside Coq by SF.IndexBijVal.canon, harness. NaN labels excluded by the property.'),
-    'technique': 'refinement proof M = S + differential correspondence',
+    'text': ('Coq theorems (Properties/C02.v, all closed under the global context) about executable models M of static_frame/core/index.py, '
+             'index_auto.py, index_hierarchy.py (from_labels) and index_level.py (from_level_data, leaf_loc_to_iloc, __contains__): '
+             'C02_index_refines / C02_index_accepts_iff / C02_index_bijection (Index(labels) observed through values, iteration, reversed, len, '
+             'positions, iloc, loc_to_iloc and `in` IS the label list; accepted iff labels pairwise distinct, else ErrorInitIndex; lookup of the '
+             'i-th label is i and conversely) for every label list and probe list; C02_auto_bijection / C02_auto_refines (map-less auto-integer index, '
+             'under the explicit guard auto_key_ok); C02_go_history / C02_go_labels_laws / C02_go_observe (IndexGO incl. the auto-integer one: after ANY '
+             'history of append/extend/reader calls inside the guard go_dom the state is a bijection holding the initial labels followed by the accepted '
+             'values, outcome by outcome); C02_hier_refines / C02_hier_bijection (IndexHierarchy.from_labels: dict-tree walk with the shared '
+             'observed_last list, levels with relative offsets, leaf_loc_to_iloc: accepted iff one depth >= 2, distinct and tree-ordered; then the '
+             'table in the given order with exact lookups); C02_derive_select/drop/roll (label computations of the derivations keep an index an index). '
+             'Refuted/C02.v: 5 concrete witnesses where the faithful model (= the unchanged code) leaves the property (known/C02.jsonl). '
+             'Gen/Gen_c02.v: error classes and statement-order facts re-read from the AST of /repo on every run and used by M. '
+             'API-level correspondence of M and of S with the implementation: every public construction route x label kinds, exhaustive small label '
+             'sequences / append histories, derivations (selection, drop, roll, relabel, sort, set operations, astype, copy/pickle, level_add/flat/'
+             'level_drop), list and slice keys, datetime-typed indices and their GO forms, hierarchical tables incl. non-tree orders and duplicates, '
+             'IndexHierarchyGO.append inside the tree-order class, and an oracle sweep of automap.AutoMap/FrozenAutoMap.'),
+    'note': ('trusted: Coq kernel; hand-written models coq/SF/IndexBij.v, IxTree.v (tied to /repo by the correspondence cases of each run and by the '
+             'regenerated constants); AutoMap/FrozenAutoMap modelled as an insertion-ordered map that raises on a duplicate (oracle, swept each run); '
+             'NumPy indexing of the cached positions array modelled by positions_getitem; label canonicalisation under Python equality '
+             '(True == 1 == 1.0) done inside Coq by SF.IndexBijVal.canon; conversion of date strings to datetime64 done by NumPy in the harness. '
+             'Partial: derivations and the from_product/from_tree/from_index_items/level_add routes, datetime indices, IndexHierarchyGO.append are '
+             'covered by correspondence with S only (their results are built through the modelled constructors); IndexHierarchyGO.append outside the '
+             'tree-order class (D4) and extend atomicity (D5) belong to C05/C09. NaN labels, from_pandas and tuple components of hierarchical labels '
+             'are outside (the last one is listed as a finding).'),
+    'technique': 'refinement proofs M = S (flat, grow-only histories, hierarchical construction) + differential correspondence + regenerated constants',
 }
 PROPERTY_FILES = ['Properties/C02.v']
 REFUTED_FILES = ['Refuted/C02.v']
 MODEL_FILES = ['Gen/Gen_c02.v', 'SF/IndexBij.v', 'SF/IndexBijVal.v', 'SF/IxTree.v', 'SF/IxTreeVal.v']
 IMPORTS = 'Require Import SF.Prelude SF.Dtype SF.Value SF.PySlice SF.IndexBij SF.IndexBijVal SF.IxTree SF.IxTreeVal.'
-RULE = ('api strata: label lists (ints, strs, bools, exact floats, tuples, dates, mixed; empty; duplicates) through the public constructors; '
-        'each index is observed completely (values, iteration, reversed, len, positions, iloc[i], loc_to_iloc and `in` for held and absent probes); '
-        'a case is non-trivial when it has >= 2 labels or is rejected; distinct = distinct (route, labels, probes)')
-ASSUMPTIONS = ['automap.FrozenAutoMap/AutoMap: insertion-ordered hash map label -> position, ValueError on a duplicate key (hash/== of Python)',
-               'Python equality of labels = structural equality of canonical forms (bool -> int, integral float -> int, tuples elementwise); NaN excluded']
-TRUSTED = []
+RULE = ('every case builds an index through the public interface and observes it COMPLETELY (values, iteration, reversed, len, positions, iloc[i], '
+        'loc_to_iloc and `in` for held and absent probe keys, constructor / append outcome classes); M and S are evaluated in Coq on the same input. '
+        'Exhaustive strata: all label sequences of length <= 2 (quick) / <= 3 (thorough) over {0, 1, True, 1.0, "a", (0,1)}; all append/reader histories '
+        'of length <= 2 / <= 3 over a 6 / 10 value alphabet from 5 start states (mapped and auto-integer); all hierarchical tables of <= 3 / <= 4 rows over '
+        '{a,b}x{1,2} and <= 2 / <= 3 rows over {a,b}x{x,y}x{1,2}; all auto-integer indices of n <= 4 / <= 7 with every key class; AutoMap on all lists of '
+        'length <= 3 / <= 4 over 8 keys. Random strata: label kinds int/str/bool/float/tuple/date/mixed/numpy ints, sizes 0..12, 30% with duplicates, '
+        '11 construction routes, derivations with malformed keys (duplicates, out of range, absent labels), tree-ordered tables with swaps / duplicates / '
+        'shuffles. Non-trivial: >= 2 labels or a rejection; distinct = distinct (route, input, probes).')
+ASSUMPTIONS = ['automap.FrozenAutoMap/AutoMap: insertion-ordered hash map label -> position, ValueError on a duplicate key (hash/== of Python); swept against the real classes each run',
+               'Python equality/hash of labels = structural equality of canonical forms (bool -> int, integral float -> int, tuples elementwise); NaN excluded',
+               'NumPy: arange(n)[k] for int k is bounds-checked with negative wrap-around, a bool or None index never raises, anything else raises IndexError',
+               'np.datetime64(string, unit) is the meaning of a date string; same-unit keys only']
+TRUSTED = ['tools/sfv/props/c02.py:generate (AST extractor of Gen/Gen_c02.v, fail closed)']
 EXHAUSTIVE = {'quick': False, 'thorough': False}
 TRANSLATED = []
 
@@ -113,6 +136,18 @@ def generate(repo):
     push_before_map = i_push < i_map
     if push_before_map and not map_arg_is_mutable:
         raise ValueError('_IndexGOMixin.append: unexpected AutoMap argument')
+    # (3b) Index.loc_to_iloc on a map-less index: does it refresh the caches before reading self._positions ?
+    l2i = find_func(find_class(index_mod, 'Index'), 'loc_to_iloc')
+    l2i_stmts = [s for s in l2i.body if not (isinstance(s, ast.Expr) and isinstance(s.value, ast.Constant))]
+    head = l2i_stmts[0]
+    if not (isinstance(head, ast.If) and isinstance(head.test, ast.Compare) and is_self_attr(head.test.left, '_map')):
+        raise ValueError('Index.loc_to_iloc no longer starts with `if self._map is None`')
+    uses_positions = any(is_self_attr(n, '_positions') for n in ast.walk(head))
+    if not uses_positions:
+        raise ValueError('Index.loc_to_iloc: the map-less branch no longer reads self._positions')
+    h0 = head.body[0]
+    loc_to_iloc_recaches = (isinstance(h0, ast.If) and is_self_attr(h0.test, '_recache')
+                            and any(isinstance(n, ast.Call) and is_self_attr(n.func, '_update_array_cache') for n in ast.walk(h0)))
     # (4) IndexLevel.__contains__: what is returned once a leaf level is reached
     lvl_mod = parse('static_frame/core/index_level.py')
     cont = find_func(find_class(lvl_mod, 'IndexLevel'), '__contains__')
@@ -138,6 +173,8 @@ def generate(repo):
             f'Definition gen_append_dup_error : string := {lit.s(append_err)}.\n'
             '(* IndexGO.append pushes the value onto _labels_mutable BEFORE AutoMap(self._labels_mutable) is built on promotion *)\n'
             f'Definition gen_go_push_before_map : bool := {b(push_before_map)}.\n'
+            '(* Index.loc_to_iloc refreshes stale caches before reading self._positions on a map-less index *)\n'
+            f'Definition gen_loc_to_iloc_recaches : bool := {b(loc_to_iloc_recaches)}.\n'
             '(* IndexLevel.__contains__ checks that the key is exhausted when it reaches a leaf level *)\n'
             f'Definition gen_hier_contains_checks_exhausted : bool := {b(leaf_checks_exhausted)}.\n')
     return {'Gen/Gen_c02.v': text}
@@ -309,6 +346,61 @@ def construct_random_cases(ctx):
         name = ctx.rng.choice(names)
         ctx.count(f'kind:{kind}')
         yield index_case(ctx, name, R[name], labels, probes, 'api:construct-random')
+
+
+# ----------------------------------------------------------------------------- Index(labels, dtype=...)
+def py_canon(v):
+    '''Canonical form under Python equality (same as SF.IndexBijVal.canon), used only to CLASSIFY inputs.'''
+    if isinstance(v, (bool, np.bool_)):
+        return int(v)
+    if isinstance(v, (float, np.floating)) and float(v).is_integer():
+        return int(v)
+    if isinstance(v, np.generic):
+        return py_canon(v.item())
+    if isinstance(v, tuple):
+        return tuple(py_canon(x) for x in v)
+    return v
+
+
+def dtype_cases(ctx):
+    import static_frame as sf
+    pools = {
+        'int': ([0, 1, 2, 3, 10, -4], [float, str, object, bool, int]),
+        'float': ([0.5, 1.5, 1.25, 2.0, 3.0, -1.0], [int, str, object, float]),
+        'str': (['a', 'b', '1', '10', '1e1', '2'], [object, float, str]),
+        'bool': ([True, False], [int, object, str]),
+        'mixed': ([1, 'a', 2.5, True], [object, str]),
+    }
+    for _ in range(ctx.n(60, 900)):
+        kind = ctx.rng.choice(sorted(pools))
+        pool, dts = pools[kind]
+        n = ctx.rng.choice([0, 1, 2, 3, 4])
+        raw = ctx.rng.sample(pool, min(n, len(pool))) if ctx.rng.random() < 0.8 else [ctx.rng.choice(pool) for _ in range(n)]
+        dt = ctx.rng.choice(dts)
+        try:
+            cast_arr = np.array(raw, dtype=dt)            # NumPy's conversion, independent of static-frame
+        except Exception:  # noqa
+            continue
+        cast = arr_items(cast_arr) if len(raw) else []
+        try:
+            vl(cast)
+        except ValueError:
+            continue
+        changed = [py_canon(a) for a in raw] != [py_canon(b) for b in cast]
+        cls = ctx.rng.choice([sf.Index, sf.IndexGO])
+        form = ctx.rng.choice(['list', 'tuple', 'generator'])
+        given = {'list': lambda: list(raw), 'tuple': lambda: tuple(raw), 'generator': lambda: (x for x in raw)}[form]
+        probes = list(dict.fromkeys([repr(x) for x in raw + cast]))   # order-preserving de-dup by repr
+        probes = [x for x in raw + cast if repr(x) in probes and not probes.remove(repr(x))][:8] + ['zz', 7]
+        obs, ix = robs_lit(lambda: cls(given(), dtype=dt), probes)
+        tags = {'route': 'Index(dtype)'}
+        if changed:
+            tags['finding'] = 'C02-init-dtype-map-mismatch'
+        ctx.count(f'dtype:{kind}->{np.dtype(dt).kind}', 'dtype:changed' if changed else 'dtype:unchanged')
+        yield Case('api:construct-dtype', {'cls': cls.__name__, 'labels': repr(raw), 'dtype': np.dtype(dt).str, 'form': form,
+                                           'converted': repr(cast), 'probes': repr(probes), 'observed': obs[:400]},
+                   m=f'chk_M_index_dtype {vl(raw)} {vl(cast)} {vl(probes)} {obs}', s=f'chk_S_index {vl(cast)} {vl(probes)} {obs}',
+                   tags=tags, nontrivial=len(raw) >= 1)
 
 
 # ----------------------------------------------------------------------------- auto-integer index
@@ -1037,7 +1129,7 @@ def automap_oracle_cases(ctx):
                        nontrivial=n >= 2)
 
 
-STRATA = [construct_small_cases, construct_random_cases, auto_cases, go_small_cases, go_random_cases, multi_key_cases,
+STRATA = [construct_small_cases, construct_random_cases, dtype_cases, auto_cases, go_small_cases, go_random_cases, multi_key_cases,
           derive_cases, datetime_cases, hier_small_cases, hier_random_cases, hier_derive_cases, ihgo_append_cases,
           automap_oracle_cases]
 
